@@ -849,7 +849,7 @@ const X_INCLUDE_COMMAND_EXEC: bool = true;
 /// exits.  With this switch on, those scripts are generated and the table
 /// oracle rejects them (code 8).  (Environment variable
 /// YV_C10_INCLUDE_EXEC_TRAP=1 switches it on for one run.)
-const X_INCLUDE_EXEC_FAILURE_WITH_EXIT_TRAP: bool = false;
+const X_INCLUDE_EXEC_FAILURE_WITH_EXIT_TRAP: bool = true;
 
 fn x_exec_skips_trap(x: &XSpec) -> bool {
     let isolating = ["PSubshell", "PSubst", "PSubstIgn", "PPipeLast", "PPipeFirst"];
@@ -951,7 +951,11 @@ fn emit_x(w: &mut CasesWriter, x: &XSpec) {
         ImplOut::Ok(tr, _) if !tr.is_empty() => Some(format!("xtable:{xs}")),
         _ => None,
     };
-    w.push(&term, &json, &[], key);
+    // known finding F47: a failed `exec` in the main shell environment ends the
+    // shell with Divert::Abort, which skips the EXIT trap; every case of exactly
+    // this class carries the tag (the oracle keeps the strict reading)
+    let tags: &[&str] = if x_exec_skips_trap(x) { &["F47"] } else { &[] };
+    w.push(&term, &json, tags, key);
 }
 
 fn xtable_stream(w: &mut CasesWriter, rng: &mut Rng, thorough: bool) {
